@@ -84,7 +84,8 @@ def main():
             "serves_properties": [c["property_id"] for c in checks],
             "kind_free_text": "deterministic simulator for a synchronous library: one fresh interpreter per cell "
                               "(PYTHONHASHSEED x cplex environment), seeded scheduler owning every random draw, "
-                              "in-memory filesystem with fault injection, stand-in CPLEX peer, faulty CBC wrapper, "
+                              "in-memory filesystem with fault injection, unwritable working directory as environment fault, "
+                              "stand-in CPLEX peer (with solver faults), faulty CBC wrapper, "
                               "spy peers, reference models as oracles, ddmin minimiser, replay files",
         }],
         "checks": checks,
